@@ -266,6 +266,11 @@ func (fe *FnExec) applyContract(st *State, in ssa.Instruction, ci calleeInfo, al
 			continue
 		}
 		checked[ck] = true
+		if strings.HasPrefix(m.key, "sync.Mutex.held") {
+			// the lock state is balanced by every function that takes a lock (its
+			// contract says held == old(held)); it is not part of the callers' frames
+			continue
+		}
 		var g Term
 		switch m.kind {
 		case "loc":
